@@ -189,6 +189,22 @@ func rprop(f func(ConstVector) (MagicScalar, error), x0 ConstVector, step_init f
 
 /* -------------------------------------------------------------------------- */
 
+// check the values of the step size and stopping parameters
+func checkParameters(step_init float64, eta []float64, epsilon Epsilon, maxIterations MaxIterations, hasHook bool) error {
+  if !(step_init > 0.0) {
+    return fmt.Errorf("Rprop(): initial step size must be positive (got %v)", step_init)
+  }
+  if !(eta[0] >= 1.0) || !(eta[1] > 0.0 && eta[1] < 1.0) {
+    return fmt.Errorf("Rprop(): eta must satisfy eta[0] >= 1 > eta[1] > 0 (got %v)", eta)
+  }
+  // with a finite number of iterations epsilon <= 0 simply means `run all
+  // iterations', otherwise nothing would ever stop the algorithm
+  if !(epsilon.Value > 0.0) && maxIterations.Value == int(^uint(0) >> 1) && !hasHook {
+    return fmt.Errorf("Rprop(): epsilon must be positive if neither MaxIterations nor a Hook is given (got %v)", epsilon.Value)
+  }
+  return nil
+}
+
 func Run(f interface{}, x0 Vector, step_init float64, eta []float64, args ...interface{}) (Vector, error) {
 
   hook          := Hook         { nil}
@@ -212,6 +228,9 @@ func Run(f interface{}, x0 Vector, step_init float64, eta []float64, args ...int
     default:
       panic("Rprop(): Invalid optional argument!")
     }
+  }
+  if err := checkParameters(step_init, eta, epsilon, maxIterations, hook.Value != nil); err != nil {
+    return nil, err
   }
   switch a := f.(type) {
   case func(ConstVector) (MagicScalar, error):
@@ -244,6 +263,9 @@ func RunGradient(f interface{}, x0 ConstVector, step_init float64, eta []float64
     default:
       panic("Rprop(): Invalid optional argument!")
     }
+  }
+  if err := checkParameters(step_init, eta, epsilon, maxIterations, hook.Value != nil); err != nil {
+    return nil, err
   }
   switch a := f.(type) {
   case DenseGradientF:
